@@ -39,17 +39,20 @@ def spec_bounds(spec, value, prefix):
     from jumanji import specs
 
     out = {}
-    if isinstance(spec, specs.Spec):
-        for k, sub in spec._specs.items():
-            v = getattr(value, k) if hasattr(value, k) else value[k]
-            out.update(spec_bounds(sub, v, f"{prefix}.{k}"))
-    elif isinstance(spec, specs.MultiDiscreteArray):
+    # NB: Array/BoundedArray/... are themselves subclasses of specs.Spec (with empty _specs): test the leaf classes first
+    if isinstance(spec, specs.MultiDiscreteArray):
         v = jnp.asarray(value)
         out[prefix] = (v >= 0) & (v < jnp.asarray(spec.num_values))
     elif isinstance(spec, specs.BoundedArray):  # includes DiscreteArray
         v = jnp.asarray(value)
         if v.dtype != bool:
             out[prefix] = (v >= jnp.asarray(spec.minimum)) & (v <= jnp.asarray(spec.maximum))
+    elif isinstance(spec, specs.Array):
+        pass
+    elif isinstance(spec, specs.Spec):
+        for k, sub in spec._specs.items():
+            v = getattr(value, k) if hasattr(value, k) else value[k]
+            out.update(spec_bounds(sub, v, f"{prefix}.{k}"))
     return out
 
 
@@ -58,7 +61,7 @@ def spec_avals(spec, shaped, prefix):
     from jumanji import specs
 
     out = []
-    if isinstance(spec, specs.Spec):
+    if isinstance(spec, specs.Spec) and not isinstance(spec, specs.Array):
         ok = type(shaped) is spec._constructor or (hasattr(spec._constructor, "__wrapped__") and isinstance(shaped, spec._constructor))
         try:
             ok = ok or isinstance(shaped, spec._constructor)
